@@ -214,6 +214,10 @@ class JobWorld(World):
             self.eaten += n
             self.ev('read-cheat', n=n)
             return ok(some(n))
+        if fd in (TOKEN_W, CHEAT_W):
+            # the write end of a pipe never becomes readable: select() reports nothing, try_read answers None
+            self.ev('read-on-write-end', fd=fd)
+            return ok(none())
         raise Unsupported('try_read on fd %d' % fd)
 
     def write_tokens(self, eng, fd, n):
@@ -363,6 +367,11 @@ class Client:
                     self.poll_bg(cx)
                     return Enum('Poll', 'Pending')
                 self.cur = None
+            elif op == 'fail':
+                # builder::run gives up with an error (e.g. a target that already failed in this run) while jobs it started are
+                # still running: `?` leaves the root future, block_on returns, force_return_tokens runs with children alive
+                e = eng.call('RedoError::new::<&str>', [Bytes(list(b'boom'), 'str')], None, None)
+                return Enum('Poll', 'Ready', [err(e)])
             elif op == 'drain':
                 # `job_futures.fold(...)` at the end of builder::run: wait for every remaining job future
                 self.poll_bg(cx)
